@@ -177,6 +177,27 @@ def build_driver(work, log, race=False):
     return rc == 0
 
 
+def scratch_base():
+    """The directory the scratch directory of a run is made in: the usual temporary directory if every directory on
+    the way to it can be searched by other users (some scenarios run a command as uid 65534, which has to reach the
+    files of its case), else the first of /tmp, /var/tmp, /dev/shm with that quality, else the usual one."""
+    def searchable(d):
+        d = os.path.realpath(d)
+        while True:
+            try:
+                if os.stat(d).st_mode & 0o001 == 0:
+                    return False
+            except OSError:
+                return False
+            if d == '/':
+                return True
+            d = os.path.dirname(d)
+    for d in [tempfile.gettempdir(), '/tmp', '/var/tmp', '/dev/shm']:
+        if os.path.isdir(d) and os.access(d, os.W_OK) and searchable(d):
+            return d
+    return tempfile.gettempdir()
+
+
 def split_stream(text):
     """-> list of (case_id, resolved_lines, obs_lines) in order."""
     cases, cur = [], None
